@@ -22,7 +22,8 @@ RULE = ("arrival/send histories on a real HippoClientSession + HippoClientProtoc
         "harness-owned clock: peer sends a new (un)reliable packet (possibly delayed and delivered out of order), retransmits an earlier one (1..3 copies, RESENT set or "
         "not, out of order), acks outstanding client sends via appended acks / PacketAck body / both (incl. duplicates and "
         "unknown IDs), client sends (un)reliable, clock advances + resend_unacked(), noise (malformed, UDP-banned, unknown "
-        "host).  Subscribers on session and region handlers, by name and wildcard.  Exhaustive to a depth bound over 12 "
+        "host), keep-alive pings, one-shot waiters (taking or not, behind a rejecting predicate), reliable PacketAcks, the client's own resend pass.  "
+        "Subscribers on session and region handlers, by name and wildcard.  Exhaustive to a depth bound over 17 "
         "concrete events (circuit alive flag both ways), Hypothesis walks beyond.  Non-trivial = history with a "
         "retransmission or an ack of a client send; distinct by event sequence.")
 ASSUMPTIONS = [
